@@ -794,8 +794,13 @@ func (w *tableWorld) actN(id, action string, amt int64, who string, depth int) e
 		// the calls themselves interleave with the engine at statement level
 		gc, _ = w.mon.preLight()
 		evKey = "?"
+		pend := w.mon.pendingAction(id, action, amt, gc) // visible to the monitors while the call is in flight
 		err = w.rawAct(id, action, amt)
+		w.mon.finishPending(pend, err)
 		w.mon.markNotAtomic(gc)
+		w.anyInFlight--
+		c.Logf("ACT %s %s %d (%s, interleaved) -> %v", id, action, amt, who, err)
+		return err
 	} else {
 		atomic = simrt.Atomic(func() {
 			gc, evKey = w.mon.preLight()
